@@ -1,12 +1,17 @@
 (* C19 - a cached (cloned) repository is a faithful, loadable copy.
-   Pinned statements; short proofs from Proofs/SitesP.v, Proofs/PctP.v. The end-to-end statement
-   ("the copy loads with identical versions") is established by the correspondence runs; what is
-   proved here is that the names the cache writes are the names under which the client fetched the
-   documents it trusts, that they are plain directory entries, that the root chain is complete, and
-   (through C06/C08) that cached targets are verified and confined. *)
+   Pinned statements; proofs in Proofs/SitesP.v, Proofs/PctP.v, Proofs/SrvExtP.v, Proofs/CacheP.v.
+   Proved here: the end-to-end statement on the model - a client holding the same shipped root that
+   reads the copy (the files the unchanged source serves under exactly the names the cache writes)
+   loads the very same repository record, root chain included; and without the root chain when its
+   shipped root is the trusted root (C19_copy_loads, C19_copy_loads_no_chain) - together with what it
+   rests on: the outcome of a cycle depends on the server only through the answers to its requests
+   (C19_server_extensionality); the names the cache writes are the names under which the client fetched
+   the documents it trusts, they are plain directory entries, the root chain is complete, and (through
+   C06/C08) cached targets are verified and confined. That the real cache writes those files and the real
+   client behaves as the model is established by the correspondence runs. *)
 From ToughV Require Export Model.Base Model.Pct Model.Sig Model.Glob Model.Deleg Model.Client Model.Cache.
 From ToughV Require Import Proofs.BaseP Proofs.PctP Proofs.SitesP.
-From ToughV Require Export Proofs.ClientP.
+From ToughV Require Export Proofs.ClientP Proofs.SrvExtP Proofs.CacheP.
 From Coq Require Import ZifyBool ZifyN ZifyNat Lia.
 
 (* the files the cache copies as timestamp, snapshot and targets are - on an unchanged server - the
@@ -59,16 +64,55 @@ Qed.
 Print Assumptions C19_delegated_names_distinct.
 
 (* when the root chain is requested every version from 1 to the trusted one is written *)
-Lemma count_up_In n : forall from v, from <= v -> v < from + N.of_nat n -> In v (count_up n from).
-Proof.
-  induction n as [|n IH]; intros from v H1 H2; [lia|]. cbn [count_up].
-  destruct (N.eq_dec from v) as [->|Hne]; [left; reflexivity|right]. apply IH; lia.
-Qed.
-
 Theorem C19_root_chain_complete : forall rp v, 1 <= v -> v <= r_version (rp_root rp) ->
   In (root_json v) (cache_names rp true).
-Proof.
-  intros rp v H1 H2. unfold cache_names. apply in_or_app. right. apply in_or_app. right.
-  apply in_map. apply count_up_In; lia.
-Qed.
+Proof. exact cache_names_roots. Qed.
 Print Assumptions C19_root_chain_complete.
+
+(* the outcome of an update cycle - result and final world, datastore and request log included - depends
+   on the server only through its answers to the requests of the cycle (every variant of the model) *)
+Theorem C19_server_extensionality : forall fx c srv' s res w',
+  run_cycle fx c s = (res, w') ->
+  (forall n, In n (w_log w') -> same_answer (cy_srv c) srv' n) ->
+  run_cycle fx {| cy_cfg := cy_cfg c; cy_shipped := cy_shipped c; cy_srv := srv'; cy_now := cy_now c;
+                  cy_fault := cy_fault c |} s = (res, w').
+Proof. exact run_cycle_ext. Qed.
+Print Assumptions C19_server_extensionality.
+
+(* the copy serves exactly the files the source serves under the cached names *)
+Theorem C19_copy_serves : forall srv names n lim h,
+  fetch (cache_srv srv names) n lim h = if mem_bytes n names then fetch srv n lim h else FErr 0.
+Proof. exact fetch_cache_srv. Qed.
+Print Assumptions C19_copy_serves.
+
+(* a successful cycle, from any datastore, can be repeated on the cached copy (root chain included) by a
+   client with the same shipped root, configuration and clock, an empty datastore and no interruption:
+   it loads the same root, timestamp, snapshot and targets with the whole loaded delegation tree *)
+Theorem C19_copy_loads : forall c s rp w',
+  run_cycle fixed c s = (Ok rp, w') ->
+  exists w'', run_cycle fixed (copy_cycle c (cy_shipped c) (cache_names rp true)) store0 = (Ok rp, w'').
+Proof. exact copy_loads. Qed.
+Print Assumptions C19_copy_loads.
+
+(* without the root chain, for a client whose shipped root is the root the first client trusted *)
+Theorem C19_copy_loads_no_chain : forall c s rp w',
+  run_cycle fixed c s = (Ok rp, w') ->
+  exists w'', run_cycle fixed (copy_cycle c (CRoot (rp_root rp)) (cache_names rp false)) store0 = (Ok rp, w'').
+Proof. exact copy_loads_no_chain. Qed.
+Print Assumptions C19_copy_loads_no_chain.
+
+(* non-vacuity: a concrete repository with a two-level delegation tree, consistent snapshots, a root
+   chain of two versions and a file 3.root.json (a root of the version already trusted) that stops the
+   walk on the source and is not in the copy *)
+Example C19_copy_loads_example :
+  exists rp w',
+    run_cycle fixed ex_cyc ex_store = (Ok rp, w')
+    /\ r_version (rp_root rp) = 2 /\ role_names (rp_targets rp) = [[97]; [98]]
+    /\ find_target ex_tname (rp_targets rp) <> None
+    /\ In (root_json 3) (map fst (cy_srv ex_cyc)) /\ ~ In (root_json 3) (cache_names rp true)
+    /\ length (cache_srv (cy_srv ex_cyc) (cache_names rp true)) = 6%nat
+    /\ length (cache_srv (cy_srv ex_cyc) (cache_names rp false)) = 5%nat
+    /\ (exists w'', run_cycle fixed (copy_cycle ex_cyc (cy_shipped ex_cyc) (cache_names rp true)) store0 = (Ok rp, w''))
+    /\ (exists w'', run_cycle fixed (copy_cycle ex_cyc (CRoot (rp_root rp)) (cache_names rp false)) store0 = (Ok rp, w'')).
+Proof. exact copy_loads_example. Qed.
+Print Assumptions C19_copy_loads_example.
